@@ -1509,9 +1509,15 @@ class GeoboxTiles:
         xy_chunks_with_data = list(self.tiles(src_footprint))
         deps: Dict[Tuple[int, int], List[Tuple[int, int]]] = {}
 
+        src_crs = src.base.crs
         for idx in xy_chunks_with_data:
             geobox = self[idx]
-            deps[idx] = list(src.tiles(geobox.extent))
+            if src_crs is None or src_crs == geobox.crs:
+                footprint = geobox.extent
+            else:
+                # straight tile edges are curved in the other CRS: add points before projecting
+                footprint = geobox.footprint(src_crs)
+            deps[idx] = list(src.tiles(footprint))
 
         return deps
 
